@@ -157,7 +157,11 @@ theorem speller_letter (hcfg : Cfg05 env) (hls : LettersSpec env) {c : Ctx} (h :
     intro c'; unfold autoSelectUniqueCandidate; simp [hcfg.noAutoSelect]
   have hpost : ∀ c', spellerPost env (c', false) = c' := by
     intro c'; unfold spellerPost; simp [hcfg.noAutoClear]
-  simp only [hpre, huniq, hpost, beginEditing_J hpush.1]
+  have hprevm : ∀ pv c', autoSelectPreviousMatch env pv c' = (c', false) := by
+    intro pv c'; unfold autoSelectPreviousMatch; simp [hcfg.noAutoSelect]
+  simp only [hpre, beginEditing_J hpush.1]
+  unfold spellerTail
+  simp only [hprevm, huniq, hpost, Bool.false_and, Bool.false_eq_true, if_false]
 
 end RimeModel.Session
 
